@@ -86,7 +86,7 @@ def catalogue():
 BOOL_T = ['yes', 'true', 'on', '1', 'Yes', 'TRUE', 'On']
 BOOL_F = ['no', 'false', 'off', '0', 'No', 'FALSE', 'Off']
 STRS = ['abc', 'a b c', 'x-%(renderer)s', '100%% sure', 'level %(split-level)d', 'Zq', 'path/to/file', 'q=1;r', 'a,b', '']
-WORDS = ['alpha', 'beta', 'g d', 'x', 'dir/one', 'two-2']
+WORDS = ['alpha', 'beta', 'g d', 'x', 'dir/one', 'two-2', 'p,q', 's,a,b,g']
 
 
 def gen_value(r, sec, key, kind, src):
